@@ -445,6 +445,20 @@ pub fn run_case(run: &mut Run, c: &Case, seed: u64, spec_limit: usize, spec_budg
             }
             let fc = FrameCheck { rt_props, st_props, max_blocks: Some(blocks.len()), spec_limit, label: &c.label, replay: &replay };
             check_frame(run, &fc, &c.data, &frame);
+            // the window the header declares covers every offset a valid script used (a decoder that keeps only
+            // the declared window must still find the data)
+            if valid && frame.len() > 5 && frame[4] & 0x20 == 0 {
+                run.oracle_checks += 1;
+                let wd = frame[5] as u64;
+                let base = 1u64 << (10 + (wd >> 3));
+                let declared = base + base / 8 * (wd & 7);
+                let max_off = blocks.iter().filter_map(|b| b.parse.as_ref()).flat_map(|p| p.iter().map(|s| s.1)).max().unwrap_or(0) as u64;
+                if max_off > declared {
+                    for pr in st_props {
+                        run.fail(pr, "offset_exceeds_declared_window", format!("{}: the script uses offset {} (<= window_size() = {}) but the frame header declares a window of {} bytes", c.label, max_off, c.w, declared), replay.clone());
+                    }
+                }
+            }
         }
     }
 }
@@ -638,6 +652,103 @@ pub fn run(opts: &Opts) -> Run {
         let mut p = plan(Mode::LiteralsOnly);
         p.chain = 1;
         cases.push(Case { label: "text, literals only, 3 blocks (Huffman, then treeless)".into(), w: 4096, spaces: vec![4000], plan: p, data: t, lvl: Lvl::F, frags: vec![] });
+    }
+    // a non-constant block whose literals all have ONE value, 1025 .. 70000 of them (RLE literals section: every
+    // size format), the matches reaching into the previous block
+    for &nl in &[1025usize, 4095, 4096, 4097, 5500, 65535, 65536, 70000] {
+        if !opts.thorough && (nl == 4097 || nl == 65535) {
+            continue;
+        }
+        let first = rng.bytes(8192);
+        let mut d = first.clone();
+        let b = rng.next() as u8;
+        let head = nl - nl / 3;
+        d.extend(vec![b; head]);
+        d.extend_from_slice(&first[100..160]);
+        d.extend(vec![b; nl - head]);
+        let mut p = plan(Mode::LiteralsOnly);
+        p.fixed.insert(0, vec![]);
+        p.fixed.insert(1, vec![(head, 8192 + head - 100, 60)]);
+        cases.push(Case { label: format!("{} literals of one value around a match into the previous block", nl), w: 131072, spaces: vec![8192, BLOCK], plan: p, data: d, lvl: Lvl::F, frags: vec![] });
+    }
+    // flat histogram over many offset codes (the offset table reaches its maximal accuracy log), with far offsets:
+    // `nb` literal-only blocks, then one block of short sequences whose offsets have the codes lo..=hi `per` times each
+    for &(nb, lo, hi, per) in &[(1usize, 3u32, 16u32, 33usize), (1, 5, 16, 30), (2, 3, 17, 28), (1, 2, 12, 60), (1, 7, 16, 24)] {
+        let mut d = rng.bytes(nb * BLOCK);
+        let mut parse = vec![];
+        // one rare code first (otherwise the normalisation flattens everything to 1)
+        let mut offs: Vec<usize> = vec![1];
+        for c in lo..=hi {
+            for k in 0..per {
+                let base = (1usize << c) - 3;
+                let span = 1usize << c;
+                offs.push((base + (k * 7919) % span).max(1));
+            }
+        }
+        // deterministic shuffle
+        for i in (1..offs.len()).rev() {
+            let j = rng.below(i as u64 + 1) as usize;
+            offs.swap(i, j);
+        }
+        for off in offs {
+            let ll = 2 + rng.below(2) as usize;
+            let ml = 3 + rng.below(4) as usize;
+            for _ in 0..ll {
+                d.push(rng.next() as u8);
+            }
+            let off = off.min(d.len());
+            for _ in 0..ml {
+                let c = d[d.len() - off];
+                d.push(c);
+            }
+            parse.push((ll, off, ml));
+        }
+        d.extend(rng.bytes(3));
+        let mut p = plan(Mode::LiteralsOnly);
+        for i in 0..nb {
+            p.fixed.insert(i, vec![]);
+        }
+        p.fixed.insert(nb, parse);
+        cases.push(Case { label: format!("flat offset-code histogram {}..={} x{} after {} blocks", lo, hi, per, nb), w: 1 << 20, spaces: vec![BLOCK], plan: p, data: d, lvl: Lvl::F, frags: vec![] });
+    }
+    // windows that the window descriptor cannot represent exactly, and a match at (nearly) the full window right at
+    // the start of a block: the declared window must not be smaller than what the matcher uses
+    for &w in &[131_073u64, 200_000, 150_000, 262_143, 229_377, 300_000] {
+        let nb = (w as usize).div_ceil(BLOCK) + 1;
+        let mut d = rng.bytes(nb * BLOCK);
+        let mut parse = vec![];
+        for k in 0..40usize {
+            let ll = if k == 0 { 0 } else { 2 };
+            for _ in 0..ll {
+                d.push(rng.next() as u8);
+            }
+            let off = w as usize - (k % 3);
+            let ml = 5 + k % 7;
+            for _ in 0..ml {
+                let c = d[d.len() - off];
+                d.push(c);
+            }
+            parse.push((ll, off, ml));
+        }
+        d.extend(rng.bytes(2));
+        let mut p = plan(Mode::LiteralsOnly);
+        for i in 0..nb {
+            p.fixed.insert(i, vec![]);
+        }
+        p.fixed.insert(nb, parse);
+        cases.push(Case { label: format!("matches at offset = window_size() = {} (not representable) at the start of a block", w), w, spaces: vec![BLOCK], plan: p, data: d, lvl: Lvl::F, frags: vec![] });
+    }
+    // a whole block that is ONE match (match length 131072, the last row of the match length code table)
+    {
+        let a = rng.bytes(BLOCK);
+        let mut d = a.clone();
+        d.extend_from_slice(&a);
+        d.extend_from_slice(&a[..77]);
+        let mut p = plan(Mode::LiteralsOnly);
+        p.fixed.insert(0, vec![]);
+        p.fixed.insert(1, vec![(0, BLOCK, BLOCK)]);
+        p.fixed.insert(2, vec![(0, BLOCK, 77)]);
+        cases.push(Case { label: "a block that is one match of length 131072".into(), w: 262144, spaces: vec![BLOCK], plan: p, data: d, lvl: Lvl::F, frags: vec![] });
     }
     // F13 (repaired): window_size() far below the size of the spaces; the header must declare a window
     // that covers every block (these frames were rejected by libzstd before the repair)
